@@ -173,13 +173,17 @@ theorem handleModeLine_gv {cfg : Cfg} {m m' : M} {l : L} {b : Bool}
     · split at e <;> (cases e; exact (GV.refl m).upd rfl rfl rfl)
     · cases e; exact GV.refl m
 
-theorem handleAdditionalCases_gv {cfg : Cfg} {m m' : M} {l : L} {b : Bool} {to : State}
-    (e : handleAdditionalCases cfg m l to = .ok (b, m')) : GV m m' := by
+theorem handleAdditionalCases_gv_from {cfg : Cfg} {m0 m m' : M} {l : L} {b : Bool} {to : State} (c0 : GV m0 m)
+    (e : handleAdditionalCases cfg m l to = .ok (b, m')) : GV m0 m' := by
   unfold handleAdditionalCases at e
-  have c : GV m { flushMP m with st := to } := (GV.refl m).flushMP.upd rfl rfl rfl
+  have c : GV m0 { flushMP m with st := to } := c0.flushMP.upd rfl rfl rfl
   split at e
   · cases e; exact c.emit.writeGeneric cfg _ _
   · cases e; exact c
+
+theorem handleAdditionalCases_gv {cfg : Cfg} {m m' : M} {l : L} {b : Bool} {to : State}
+    (e : handleAdditionalCases cfg m l to = .ok (b, m')) : GV m m' :=
+  handleAdditionalCases_gv_from (GV.refl m) e
 
 theorem handleMisc_gv {cfg : Cfg} {m m' : M} {l : L} {b : Bool}
     (e : handleMisc cfg m l = .ok (b, m')) : GV m m' := by
@@ -198,7 +202,7 @@ theorem handleSubmoduleLog_gv {cfg : Cfg} {m m' : M} {l : L} {b : Bool}
   unfold handleSubmoduleLog at e
   split at e
   · cases e; exact GV.refl m
-  · exact handleAdditionalCases_gv e
+  · exact handleAdditionalCases_gv_from ((GV.refl m).flushMP.pendingDiffName cfg) e
 
 theorem handleSubmoduleShort_gv {cfg : Cfg} {m m' : M} {l : L} {b : Bool}
     (e : handleSubmoduleShort cfg m l = .ok (b, m')) : GV m m' := by
